@@ -417,12 +417,20 @@ func execPass(input string) Result {
 	must(u.Parse())
 	seed := models.NewItem(uuid.New().String(), u, "")
 	seed.SetSource(models.ItemSourceQueue)
+	if passTimeouts >= 3 {
+		// earlier seeds never came out of the pipeline: it is wedged (their tokens are held), do not wait again
+		return Result{Term: fmt.Sprintf("PC (Cfg %d false %s) 0 %d false []", mr, coqBool(da), hops), Tags: []string{"pipeline-wedged"}}
+	}
 	must(reactor.ReceiveInsert(seed))
 	finished := false
 	select {
 	case <-ph.finishCh:
 		finished = true
 	case <-time.After(20 * time.Second):
+		passTimeouts++
+		note("seed never reported finished: " + input)
+		// free the token so that the next case can be inserted
+		reactor.MarkAsFinished(seed)
 	}
 	time.Sleep(2 * time.Millisecond)
 	ph.mu.Lock()
@@ -504,6 +512,7 @@ func countSnap(n *snapNode) int {
 }
 
 var passCounter int
+var passTimeouts int
 
 func genPass(r *Rng, i int, tier string) string {
 	passCounter++
